@@ -521,6 +521,7 @@ func genSpelling(t *rapid.T, s *Sheet) {
 	}
 	s.RowSpans = rapid.IntRange(0, 2).Draw(t, "rowSpans") == 0
 	s.OmitRowR = rapid.IntRange(0, 6).Draw(t, "omitRowR") == 0
+	s.OmitCellR = rapid.IntRange(0, 5).Draw(t, "omitCellR") == 0
 	s.Noise = rapid.IntRange(0, 2).Draw(t, "noise") == 0
 }
 
